@@ -309,10 +309,17 @@ class CookieJar(AbstractCookieJar):
 
     def _delete_cookies(self, to_del: list[tuple[str, str, str]]) -> None:
         for domain, path, name in to_del:
-            self._host_only_cookies.discard((domain, name))
             self._cookies[(domain, path)].pop(name, None)
             self._morsel_cache[(domain, path)].pop(name, None)
             self._expirations.pop((domain, path, name), None)
+            # The host-only flag is shared by every path of (domain, name):
+            # keep it while a cookie of that name survives on another path,
+            # or the survivor would start being sent to sub-domains.
+            if (domain, name) in self._host_only_cookies and not any(
+                d == domain and name in cookies
+                for (d, _), cookies in self._cookies.items()
+            ):
+                self._host_only_cookies.discard((domain, name))
 
     def _expire_cookie(self, when: float, domain: str, path: str, name: str) -> None:
         cookie_key = (domain, path, name)
